@@ -1163,7 +1163,39 @@ pub fn run_transport(cfg: &TransportCfg, sc: &mut Sc) {
             sc.count("t.rekey_resync");
         } else if action < 81 {
             // one-sided rekey
-            if r.chance(1, 2) {
+            let in_step = dirs[d].send_key == dirs[d].recv_key && dirs[d].send_n == dirs[d].recv_n && dirs[d].send_n < u64::MAX - 2;
+            if in_step && r.chance(1, 2) {
+                // "the message overtakes the receiver's rekey": the sender rekeys and writes m; m reaches the receiver
+                // BEFORE the receiver rekeyed and is refused (nothing moves); the receiver rekeys; the SAME bytes are
+                // delivered again and are now the next in-order message (seed C05-L: a remembered rejection)
+                let o = sc.ex.rekey(w, "out");
+                sc.check_panic(&o, "rekey_outgoing");
+                dirs[d].send_key = format!("R({})", dirs[d].send_key);
+                let p = r.bytes(20);
+                if let Some(m) = sc.ex.t_write(w, &p, 36).bytes().map(<[u8]>::to_vec) {
+                    dirs[d].send_n += 1;
+                    let o1 = sc.ex.t_read(rd, &m, 20);
+                    if o1.is_ok() {
+                        sc.viol("C15", format!("{}: a message written after a one-sided rekey was accepted by a receiver that had not rekeyed", cfg.name));
+                    }
+                    let o = sc.ex.rekey(rd, "in");
+                    sc.check_panic(&o, "rekey_incoming");
+                    dirs[d].recv_key = format!("R({})", dirs[d].recv_key);
+                    let o2 = sc.ex.t_read(rd, &m, 20);
+                    sc.count("t.overtaken_rekey");
+                    if o2.bytes() == Some(p.as_slice()) {
+                        dirs[d].recv_n += 1;
+                    } else if !o1.is_ok() {
+                        sc.viol("C05", format!("{}: the next in-order message, refused once before the receiver rekeyed, is still refused after it rekeyed: {o2:?}", cfg.name));
+                        sc.viol("C15", format!("{}: after a rekey on both sides the pending message is refused: {o2:?}", cfg.name));
+                        // keep the abstract state in step with the implementation for the rest of the scenario
+                        sc.ex.set_recv_nonce(rd, dirs[d].send_n);
+                        dirs[d].recv_n = dirs[d].send_n;
+                    } else {
+                        dirs[d].recv_n += 1;
+                    }
+                }
+            } else if r.chance(1, 2) {
                 let o = sc.ex.rekey(w, "out");
                 sc.check_panic(&o, "rekey_outgoing");
                 dirs[d].send_key = format!("R({})", dirs[d].send_key);
